@@ -23,19 +23,32 @@ def tstr(sec) -> str:
     return str(T0 + np.timedelta64(int(sec), "s"))
 
 
+_scratch_depth = [0]
+
+
 @contextlib.contextmanager
 def scratch():
-    d = tempfile.mkdtemp(prefix="ladimverif_")
+    """A scratch directory.  A process gets the *same* path every time (one per nesting depth), emptied in between:
+    the set-ups that follow each other in a worker process have the same file names and other contents, as when a user
+    regenerates a set-up in place and runs it again — nothing the program remembers about a path may outlive the file."""
+    base = Path(tempfile.gettempdir()) / f"ladimverif_p{os.getpid()}"
+    d = base / f"d{_scratch_depth[0]}"
+    shutil.rmtree(d, ignore_errors=True)
+    d.mkdir(parents=True)
+    _scratch_depth[0] += 1
     try:
-        yield Path(d)
+        yield d
     finally:
+        _scratch_depth[0] -= 1
         shutil.rmtree(d, ignore_errors=True)
+        if _scratch_depth[0] == 0:
+            shutil.rmtree(base, ignore_errors=True)
 
 
 def make_grid_forcing(fname, times_s, imax=12, jmax=10, N=3, h=None, mask=None,
                       u=None, v=None, scal=None, dx=100.0, hc=0.0, t0=T0, write_grid=True,
                       lon=None, lat=None, Cs_r=None, Cs_w=None, vtransform=None, scale_uv=None,
-                      w=None, time_units=None, angle=None):
+                      w=None, time_units=None, angle=None, scal_pack=None, time_ref_s=None):
     """Write one ROMS-like file.
 
     times_s: seconds since t0 of the frames in this file.
@@ -50,8 +63,13 @@ def make_grid_forcing(fname, times_s, imax=12, jmax=10, N=3, h=None, mask=None,
     nc.createDimension("s_rho", N); nc.createDimension("s_w", N + 1)
     nc.createDimension("ocean_time", None)
     tv = nc.createVariable("ocean_time", "f8", ("ocean_time",))
-    tv.units = time_units or f"seconds since {str(t0).replace('T', ' ')}"
-    tv[:] = np.array(times_s, float)
+    if time_ref_s is not None:
+        # the file counts its time from its own reference (time_ref_s seconds after t0), as files written by separate model runs do
+        tv.units = f"seconds since {str(t0 + np.timedelta64(int(time_ref_s), 's')).replace('T', ' ')}"
+        tv[:] = np.array(times_s, float) - float(time_ref_s)
+    else:
+        tv.units = time_units or f"seconds since {str(t0).replace('T', ' ')}"
+        tv[:] = np.array(times_s, float)
     if write_grid:
         H = np.full((jmax, imax), 50.0) if h is None else np.broadcast_to(np.asarray(h, float), (jmax, imax))
         M = np.ones((jmax, imax)) if mask is None else np.asarray(mask, float)
@@ -93,10 +111,16 @@ def make_grid_forcing(fname, times_s, imax=12, jmax=10, N=3, h=None, mask=None,
     if w is not None:
         allscal["w"] = w
     for name, f in allscal.items():
-        S = nc.createVariable(name, "f4", ("ocean_time", "s_rho", "eta_rho", "xi_rho"))
+        # scal_pack[name] = (scale_factor, add_offset, storage type): the file holds (value - add_offset) / scale_factor
+        sf, off, typ = (scal_pack or {}).get(name, (None, None, "f4"))
+        S = nc.createVariable(name, typ, ("ocean_time", "s_rho", "eta_rho", "xi_rho"))
+        if sf is not None:
+            S.scale_factor = np.float32(sf); S.add_offset = np.float32(off)
+            S.set_auto_maskandscale(False)
         for n, t in enumerate(times_s):
             k, j, i = np.meshgrid(np.arange(N), np.arange(jmax), np.arange(imax), indexing="ij")
-            S[n] = f(t, k, j, i) + 0.0 * k
+            val = f(t, k, j, i) + 0.0 * k
+            S[n] = val if sf is None else ((val - off) / sf).astype(typ)
     nc.close()
 
 
